@@ -294,7 +294,7 @@ func TestVerif_C01(t *testing.T) {
 }
 
 func TestVerif_C02(t *testing.T) {
-	boxRun(t, "C02", boxMonFlags{c02: true}, boxOpts{events: 24, epochMax: 3}, vfSizes{Quick: 100, Thorough: 2500},
+	boxRun(t, "C02", boxMonFlags{c02: true}, boxOpts{events: 24, epochMax: 3}, vfSizes{Quick: 300, Thorough: 3000},
 		"non-trivial = distinct allocation event (mode, chosen pool, competing pools)")
 }
 
